@@ -21,8 +21,8 @@ from vf.runner import Violation
 
 # Linear interpolation y_lo + slope*(x-x_lo) (scipy) vs np.interp's formulation differ by a few roundings of the
 # products/sums of terms of magnitude |y_lo|+|y_hi|.  Worst ratio observed on the unchanged tree over seeds 1-5
-# thorough: < 4 eps (see evidence 'max_interp_ulps').  K = 100x that, rounded up.
-K_INTERP = 512
+# thorough: 1.72 eps (evidence max_interp_ulps).  K = ~100x that, rounded up to 256.
+K_INTERP = 256
 EPS = np.finfo(np.float64).eps
 
 
